@@ -167,6 +167,51 @@ def hard_boundary_rejection():
     return None
 
 
+def whole_move_rejection():
+    """a proposal that leaves the cube in ONE coordinate must leave the walker where it is in EVERY coordinate"""
+    rng = np.random.RandomState(6)
+    for kernel in ("rwm", "tpcn"):
+        r, ms = make(kernel, 2, 1, None, None, rng)
+        r.u[:] = np.array([0.95, 0.5])
+        r.x[:] = r.u
+        r.logl[:] = loglike_vals(r.u)
+        r.sigmas[:] = 0.5
+        L = ms.chol_covariances[0]
+        want_inc = np.array([0.4, 0.05])                     # out in coordinate 0, inside in coordinate 1
+        z = np.linalg.solve(0.5 * L, want_inc) if kernel == "rwm" else np.linalg.solve(L, want_inc)
+        o_randn, o_rand, o_gamma = np.random.randn, np.random.rand, np.random.gamma
+        np.random.randn = lambda *s: z.copy()
+        np.random.gamma = lambda *a, **k: 4.0
+        np.random.rand = lambda *s: np.zeros(s)                # accept whenever alpha > 0
+        r._check_convergence = lambda acc: True
+        r._adapt_sigma = lambda c, m: None
+        u0 = r.u.copy()
+        try:
+            out = r.run()
+        finally:
+            np.random.randn, np.random.rand, np.random.gamma = o_randn, o_rand, o_gamma
+        prop_probe = None
+        if not np.array_equal(out[0], u0):
+            j = int(np.argmax(np.any(out[0] != u0, axis=1)))
+            return (f"{kernel}: a proposal leaving the cube in one coordinate moved walker {j} from {u0[j].tolist()} to {out[0][j].tolist()}: "
+                    f"out-of-cube proposals must be rejected as a whole")
+    return None
+
+
+def mode_statistics_consistent():
+    rng = np.random.RandomState(8)
+    for scale in (1.0, 1e-4, 1e-6):
+        A = rng.normal(size=(3, 3)) * scale
+        S = A @ A.T + (scale ** 2) * 1e-3 * np.eye(3)
+        ms = ModeStatistics(np.zeros((1, 3)), S[None], np.array([5.0]))
+        L = ms.chol_covariances[0]
+        if not np.allclose(L @ L.T, S, rtol=1e-6, atol=0) or not np.allclose(ms.inv_covariances[0] @ S, np.eye(3), atol=1e-6):
+            rel = np.abs(L @ L.T - S).max() / np.abs(S).max()
+            return (f"ModeStatistics: chol_covariances and inv_covariances do not describe the same scale matrix at scale {scale:g} "
+                    f"(relative error of L L^T: {rel:.3g})")
+    return None
+
+
 def accept_statement():
     """the acceptance probabilities the real run loop computes, against min(1, exp(beta (l'-l) + factor))"""
     rng = np.random.RandomState(9)
@@ -288,7 +333,8 @@ def main():
                 print(json.dumps({"reproduced": True, "tried": tried, "detail": e, "input": {"kernel": kernel, "boundary": boundary, "seed": seed}}))
                 return
     if not inp.get("kernel"):
-        for name, fn in (("rejection", hard_boundary_rejection), ("accept-statement", accept_statement), ("sigma-range", sigma_range),
+        for name, fn in (("rejection", hard_boundary_rejection), ("whole-move-rejection", whole_move_rejection),
+                         ("mode-statistics", mode_statistics_consistent), ("accept-statement", accept_statement), ("sigma-range", sigma_range),
                          ("wiring", wiring)):
             tried += 1
             try:
